@@ -5,6 +5,7 @@ from . import semchecks as SC
 from . import simple as SP
 from . import grammar as GR
 from . import fold as FD
+from . import feat as FT
 
 CHECKS = {}
 
@@ -297,6 +298,16 @@ def c10(tier, replay):
                      "code points assigned after Unicode 16, or supplementary code points without u/v, are counted as undecided.",
                      assumptions=["case pairs of characters assigned in Unicode 16 are unchanged in Unicode 17 (stability policy)",
                                   "regex-syntax 0.8.11's case folding table is a faithful copy of CaseFolding.txt 16.0"])
+
+
+@check("C14")
+def c14(tier, replay):
+    return FT.check_c14(tier, replay)
+
+
+@check("C15")
+def c15(tier, replay):
+    return FT.check_c15(tier, replay)
 
 
 @check("C08")
